@@ -2,3 +2,129 @@
 from .ops import _ops_units
 
 _ops_units("C14", "C14")
+
+import z3  # noqa: E402
+
+from pyvc.state import fresh_id  # noqa: E402
+from pyvc.unit import unit  # noqa: E402
+from pyvc.values import SV, DictObj, ListObj, Obj, Opaque, Ref, Tup  # noqa: E402
+
+from .common import no_raise, returned, sem_of, wf_of  # noqa: E402
+
+FB14 = {"mirror": "to_sympy"}
+
+
+@unit("C14.to_sympy", "C14", "ngo.math_simplification:Goebner.to_sympy", fallback=FB14)
+def to_sympy(ctx):
+    """a body literal is handed to the algebra as relations that mean exactly the literal: a comparison `t1 op t2` under
+    sign s becomes the single relation (t1, op', t2) with op' = negate(op) if s is `not`, op otherwise (`not not` counts
+    as positive); an aggregate literal `l opL #agg opR r` becomes (l, opL', A) and (A, opR', r) for one placeholder A
+    that is mapped to the aggregate without its guards -- and a negated aggregate with two guards is given up (a
+    disjunction cannot be expressed); everything else is given up (None)"""
+    sem, m, ex = sem_of(ctx), ctx.m, ctx.ex
+    wf = wf_of(ctx)
+    A = m.AST
+    S = m.enums["Sign"][1]
+    st = ctx.state()
+    lit = ctx.sym("literal", "ast")
+    st.assume(wf.wf("body_literal", lit.term, 3))
+    ln, at = m.lst_funcs("ast")
+    atom = A.Literal_atom(lit.term)
+    # normal form (C05): comparisons are binary, a right guard only together with a left guard
+    st.assume(z3.Implies(z3.And(A.is_Literal(lit.term), A.is_Comparison(atom)), ln(A.Comparison_guards(atom)) == 1))
+    st.assume(z3.Implies(z3.And(A.is_Literal(lit.term), A.is_BodyAggregate(atom), A.BodyAggregate_right_guard(atom) != m.NoneAST), A.BodyAggregate_left_guard(atom) != m.NoneAST))
+    me = ctx.new_object(st, "Goebner", _sym2agg=st.alloc(DictObj()), help_neq_vars=st.alloc(DictObj()), _fo_vars=st.alloc(DictObj()))
+    term_ok = ex.ufunc("sympy_term_ok", [m.AST], z3.BoolSort())
+
+    def to_term(e, s, a, k):
+        out = []
+        for s2, b in e.branch(s, term_ok(a[1].term)):
+            out.append((s2, Tup(("expr", a[1]))) if b else (s2, None))
+        return out
+
+    def to_equality(e, s, a, k):
+        s.log.append(("relation", a[1], a[2], a[3]))
+        return [(s, Opaque("relation"))]
+
+    ex.overrides["ngo.math_simplification:Goebner._to_sympy_term"] = to_term
+    ex.overrides["ngo.math_simplification:Goebner._to_equality"] = to_equality
+    dummy = Tup(("dummy",))
+    ex.opaque_handlers["sympy.Dummy"] = lambda e, s, a, k: [(s, dummy)]
+    ctx.assume_note("_to_sympy_term is uninterpreted (may give up); _to_equality(l, op, r) is taken to mean `l op r` (its slack encoding is not verified); sympy.Dummy is a placeholder")
+    res = ctx.call(st, ctx.method("ngo.math_simplification", "Goebner", "to_sympy", me), [lit])
+    ok, bad = returned(res)
+    ctx.cover("reach", st)
+    no_raise(ctx, "no-raise", res, kind="assert")
+    a_, b_ = z3.Ints("va vb")
+    neg = A.Literal_sign(lit.term) == S["Negation"]
+
+    def meaning(op_expected, op_got):
+        """`a op_expected b` under the literal's sign  <=>  `a op_got b`"""
+        return sem.signed(A.Literal_sign(lit.term), sem.cmp_int(op_expected, a_, b_)) == sem.cmp_int(op_got, a_, b_)
+
+    n_rel = 0
+    for n, (s, r) in enumerate(ok):
+        rels = [e for e in s.log if e[0] == "relation"]
+        if r is None:
+            ctx.oblige(f"given-up-without-relations#{n}", s, z3.BoolVal(True), kind="frame")
+            continue
+        n_rel += 1
+        items = ex.B.concrete_items(s, r)
+        ctx.oblige(f"one-relation-per-result#{n}", s, z3.BoolVal(items is not None and len(items) == len(rels) and len(rels) in (1, 2)), kind="frame", replay=FB14)
+        if items is None or len(items) != len(rels):
+            continue
+        is_cmp = A.is_Comparison(atom)
+        g = at(A.Comparison_guards(atom), 0)
+        lg, rg = A.BodyAggregate_left_guard(atom), A.BodyAggregate_right_guard(atom)
+
+        def side(v):
+            """the AST term a relation side stands for (None for the aggregate placeholder)"""
+            if isinstance(v, Tup) and v.items and v.items[0] == "expr":
+                return v.items[1].term
+            return None
+
+        if len(rels) == 1:
+            _, l, op, rr = rels[0]
+            lt, rt = side(l), side(rr)
+            # comparison literal, or aggregate with a left guard only
+            cmp_case = z3.And(is_cmp, z3.BoolVal(lt is not None and rt is not None))
+            conds = []
+            if lt is not None and rt is not None:
+                conds.append(z3.And(is_cmp, lt == A.Comparison_term(atom), rt == A.Guard_term(g), meaning(A.Guard_comparison(g), op.term)))
+            if lt is not None and rt is None:
+                conds.append(z3.And(A.is_BodyAggregate(atom), rg == m.NoneAST, lt == A.Guard_term(lg), meaning(A.Guard_comparison(lg), op.term), z3.BoolVal(rr == dummy)))
+            ctx.oblige(f"relation-means-the-literal#{n}", s, z3.Or(*conds) if conds else z3.BoolVal(False), replay=FB14)
+        else:
+            (_, l1, op1, r1), (_, l2, op2, r2) = rels
+            lt, rt = side(l1), side(r2)
+            good = lt is not None and rt is not None and r1 == dummy and l2 == dummy
+            ctx.oblige(
+                f"two-guards-mean-the-literal#{n}",
+                s,
+                z3.And(
+                    z3.BoolVal(bool(good)),
+                    A.is_BodyAggregate(atom),
+                    z3.Not(neg),
+                    (lt == A.Guard_term(lg)) if good else z3.BoolVal(False),
+                    (rt == A.Guard_term(rg)) if good else z3.BoolVal(False),
+                    meaning(A.Guard_comparison(lg), op1.term),
+                    meaning(A.Guard_comparison(rg), op2.term),
+                ),
+                replay=FB14,
+            )
+        if len(rels) >= 1 and not (isinstance(rels[0][3], Tup) and rels[0][3].items and rels[0][3].items[0] == "expr" and len(rels) == 1):
+            # aggregate: the placeholder is mapped to the aggregate without its guards
+            d = s.heap[s.heap[me.id].get("_sym2agg").id]
+            mapped = [v for k_, v in d.items if k_ == dummy]
+            okm = len(mapped) == 1
+            ctx.oblige(
+                f"placeholder-is-the-guardless-aggregate#{n}",
+                s,
+                z3.And(
+                    z3.BoolVal(okm),
+                    (mapped[0].term == A.BodyAggregate(m.NoneAST, A.BodyAggregate_function(atom), A.BodyAggregate_elements(atom), m.NoneAST)) if okm else z3.BoolVal(False),
+                ),
+                kind="frame",
+                replay=FB14,
+            )
+    ctx.cover("some-relation-path", [z3.BoolVal(n_rel > 0)])
